@@ -5,7 +5,7 @@ import time
 import z3
 
 from . import values as V
-from .values import (Unsupported, SymArr, SymList, Obj, Range, Cx, is_z3, compare, band, bor, bnot, implies,
+from .values import (Unsupported, SymArr, SymList, Obj, Range, Cx, Builtin, is_z3, compare, band, bor, bnot, implies,
                      ite, fresh, arith)
 from . import symex
 from .symex import (Exec, Frame, ReturnSignal, RaiseSignal, PathEnd, Infeasible, MergeAbort, Poison,
@@ -15,7 +15,7 @@ from .symex import (Exec, Frame, ReturnSignal, RaiseSignal, PathEnd, Infeasible,
 class Contract:
     def __init__(self, qualname, setup=None, requires=(), ensures=(), raises=None, modifies=(),
                  result=None, inline=False, loops=None, notes="", ghost=None, pure=False, dispatch=None,
-                 expose_locals=()):
+                 expose_locals=(), frame=None):
         self.qualname = qualname
         self.setup = setup              # callable(S) -> dict of symbolic arguments (for proving the function)
         self.requires = list(requires)
@@ -33,6 +33,10 @@ class Contract:
         # locals of the function at its (normal) exit made visible to the postconditions of the *proof* as
         # local_<name> (ghost access for guided clauses: never part of the contract seen by callers)
         self.expose_locals = tuple(expose_locals)
+        # frame condition: dict(roots=[argument names], allow=[paths such as "self.data"]): every object reachable
+        # from the roots at entry is unchanged at (normal) exit - same field values, same cells, same list / dict
+        # contents - except below the allowed paths
+        self.frame = frame
 
     def named(self, clauses, prefix):
         """[(name, clause text)]; guided clauses (name, body, {forall: {v: range}, use: [...]}) are rendered as the
@@ -196,6 +200,101 @@ def snapshot_value(v, memo):
     if isinstance(v, tuple):
         return tuple(snapshot_value(x, memo) for x in v)
     return v
+
+
+def frame_obligations(ex, env, old, frame, tag):
+    """one obligation per field / array / container reachable from the frame roots at entry: unchanged at exit"""
+    memo = old.get("__memo__", {})
+    allow = list(frame.get("allow", ()))
+    seen = set()
+
+    def allowed(path):
+        return any(path == a or path.startswith(a + ".") or path.startswith(a + "[") for a in allow)
+
+    def same_scalar(cur, snap, path):
+        if cur is snap:
+            return
+        if is_z3(cur) or is_z3(snap) or isinstance(cur, Cx) or isinstance(snap, Cx):
+            try:
+                f = compare("==", cur, snap)
+            except Unsupported:
+                f = False
+            ex.oblige("frame:%s:%s" % (tag, path), V.z3bool(f) if is_z3(f) else bool(f), "frame")
+        elif cur != snap:
+            ex.oblige("frame:%s:%s" % (tag, path), False, "frame")
+
+    def walk(cur, path):
+        if allowed(path):
+            return
+        if isinstance(cur, (Obj, SymArr, SymList, list, dict)):
+            if id(cur) in seen:
+                return
+            seen.add(id(cur))
+            snap = memo.get(id(cur))
+            if snap is None:
+                return          # created during the call: not part of the entry heap
+        else:
+            return
+        if isinstance(cur, SymArr):
+            a, b = cur.terms(), snap.terms()
+            same = all((x is None and y is None) or (x is not None and y is not None and x.eq(y)) for x, y in zip(a, b))
+            if not same:
+                xs = [fresh("f", z3.IntSort()) for _ in cur.shape]
+                ca, cb = Cx.of(cur.get(xs)), Cx.of(snap.get(xs))
+                rng = z3.And(*[z3.And(0 <= v, v < V.z3int(n_)) for v, n_ in zip(xs, cur.shape)]) if xs else z3.BoolVal(True)
+                eq = z3.And(V.z3real(ca.re) == V.z3real(cb.re), V.z3real(ca.im) == V.z3real(cb.im))
+                ex.oblige("frame:%s:%s" % (tag, path), V.canon_quant(xs, z3.Implies(rng, eq)) if xs else eq, "frame")
+            return
+        if isinstance(cur, Obj):
+            for f_, sv in snap.fields.items():
+                if allowed(path + "." + f_):
+                    continue
+                if f_ not in cur.fields:
+                    ex.oblige("frame:%s:%s.%s" % (tag, path, f_), False, "frame")
+                    continue
+                cv = cur.fields[f_]
+                if isinstance(sv, (Obj, SymArr, SymList, list, dict)):
+                    if memo.get(id(cv)) is not sv:
+                        ex.oblige("frame:%s:%s.%s" % (tag, path, f_), False, "frame")     # re-bound to another object
+                    walk(cv, path + "." + f_)
+                elif not isinstance(sv, (Builtin, symex.Poison)) and not callable(sv):
+                    same_scalar(cv, sv, path + "." + f_)
+            for f_ in cur.fields:
+                if f_ not in snap.fields and not allowed(path + "." + f_):
+                    ex.oblige("frame:%s:%s.%s" % (tag, path, f_), False, "frame")          # attribute added
+            return
+        if isinstance(cur, list):
+            if len(cur) != len(snap):
+                ex.oblige("frame:%s:%s" % (tag, path), False, "frame")
+                return
+            for k_, (cv, sv) in enumerate(zip(cur, snap)):
+                if isinstance(sv, (Obj, SymArr, SymList, list, dict)):
+                    if memo.get(id(cv)) is not sv:
+                        ex.oblige("frame:%s:%s[%d]" % (tag, path, k_), False, "frame")
+                    walk(cv, "%s[%d]" % (path, k_))
+                else:
+                    same_scalar(cv, sv, "%s[%d]" % (path, k_))
+            return
+        if isinstance(cur, dict):
+            if set(cur.keys()) != set(snap.keys()):
+                ex.oblige("frame:%s:%s" % (tag, path), False, "frame")
+                return
+            for k_ in cur:
+                cv, sv = cur[k_], snap[k_]
+                if isinstance(sv, (Obj, SymArr, SymList, list, dict)):
+                    if memo.get(id(cv)) is not sv:
+                        ex.oblige("frame:%s:%s[%r]" % (tag, path, k_), False, "frame")
+                    walk(cv, "%s[%r]" % (path, k_))
+                else:
+                    same_scalar(cv, sv, "%s[%r]" % (path, k_))
+    n0 = len(ex.obligations)
+    for r in frame.get("roots", ()):
+        if r in env:
+            walk(env[r], r)
+    if len(ex.obligations) == n0:
+        # nothing reachable changed syntactically: recorded as one (trivially true) obligation so that the frame
+        # is visible in the evidence
+        ex.oblige("frame:%s:all-reachable-state-untouched" % tag, True, "frame")
 
 
 def snapshot_env(env, extra_roots=()):
@@ -546,6 +645,8 @@ def verify_function(repo, registry, qualname, max_paths=400, post_hooks=(), fixe
                         w = ClauseExec(ex, dict(old), module=finfo.module).run(rs["when"])
                         w = V.z3bool(w) if is_z3(w) else bool(w)
                         ex.oblige("no-raise-unless:%s:%s" % (tag, exc), bnot(w), "exceptional-postcondition")
+                if c.frame:
+                    frame_obligations(ex, env, old, c.frame, tag)
                 for h in post_hooks:
                     h(ex, cenv, old, outcome)
             elif outcome[0] == "raise":
